@@ -21,8 +21,13 @@ META = dict(
                "functional_extensionality_dep, classic); the harness' conversion of naive/aware datetimes to integer instants; "
                "CPython datetime arithmetic and pytz conversions (exercised, not modelled).",
     rule="case = (now, T, zone spelling of T); generated boundary-biased (T = now +- few us, whole seconds +- 1us, horizon +- 3us, "
-         "minute roll-over) plus uniform +-2 days, plus 15% around UTC-offset transitions of IANA zones (repeated/skipped hour); non-trivial iff |T-now| <= 62 s or T within 3 us of now / of the horizon; "
-         "distinct by (now, T, spelling)",
+         "minute roll-over) plus uniform +-2 days, plus 15% around UTC-offset transitions of IANA zones (repeated/skipped hour); "
+         "42% of the cases run on a HOST whose system time zone is not the harness' UTC (POSIX TZ strings east/west, whole-hour / "
+         "30 / 45 / 20 / 1 minute offsets, with and without DST; IANA names; a fifth of them an IANA host at one of its own "
+         "transitions; a third with T re-aimed at now / the horizon shifted by the host's offset) - installed with "
+         "time.tzset() in the driver, the controlled clock answering now() without tz with the host's local wall clock; "
+         "neither the oracle nor the model sees the host zone; non-trivial iff |T-now| <= 62 s or T within 3 us of now / of the horizon; "
+         "distinct by (now, T, spelling, host zone)",
     trusted_base=["model: coq/theories/SchedDelay.v (hand-written transcription of get_task_delay's time branch)",
                   "datetime<->integer instant conversion in harness/drivers/sched_delay.py"],
     assumptions=["asyncio.sleep(d) not waking early is outside this property (C15)"],
@@ -87,9 +92,69 @@ def gen_dst_case(r):
     return dict(type="time", now=now, T=T, spell={"kind": r.choice(["zoneinfo", "zoneinfo", "pytz"]), "zone": zone})
 
 
+# The time zone of the HOST the scheduler runs on (TZ / /etc/localtime): an input the statement does not mention - the
+# verdict must not depend on it.  POSIX TZ strings (no zone database needed; (string, standard offset, DST offset) in
+# minutes east of UTC) and IANA names resolved by the C library (offsets read from pytz at generation time, only to AIM
+# the case - neither the oracle nor the model ever sees the host zone).
+HOSTS_POSIX = [("UTC0", 0, 0), ("MSK-3", 180, 180), ("EST5EDT", -300, -240), ("EST5", -300, -300), ("IST-5:30", 330, 330),
+               ("NPT-5:45", 345, 345), ("NZST-12NZDT", 720, 780), ("<+14>-14", 840, 840), ("<-12>12", -720, -720),
+               ("NST3:30NDT", -210, -150), ("AEST-10AEDT,M10.1.0,M4.1.0/3", 600, 660), ("CET-1CEST", 60, 120),
+               ("GMT0BST", 0, 60), ("PST8PDT", -480, -420), ("<+0020>-0:20", 20, 20), ("<-0001>0:01", -1, -1)]
+HOSTS_IANA = ZONES + ["Asia/Tokyo", "America/Los_Angeles", "Pacific/Kiritimati", "Etc/GMT+12", "Europe/London",
+                      "America/Sao_Paulo", "Asia/Tehran"]
+
+
+def host_offsets(host, now):
+    """the UTC offsets (us) the host zone may show around `now` - used only to aim T"""
+    for h, a, b in HOSTS_POSIX:
+        if h == host:
+            return [a * MIN, b * MIN]
+    import datetime as dt
+
+    import pytz
+    t = dt.datetime(1970, 1, 1) + dt.timedelta(microseconds=now)
+    tz = pytz.timezone(host.lstrip(":"))
+    return [int(tz.utcoffset(t + dt.timedelta(days=d), is_dst=False).total_seconds()) * US for d in (0, 182)]
+
+
+def gen_host(r, c):
+    """give the case a host zone other than the harness default; a third of them re-aim T at the instants a
+    local-wall-clock confusion moves the decision to (now / the horizon shifted by the host's UTC offset)"""
+    k = r.random()
+    if k < .2:      # IANA host zone with `now` (and so T) around one of ITS OWN offset transitions: the naive local
+        zone = r.choice(ZONES)   # wall clock repeats / skips an hour while the scheduler is deciding
+        tr = r.choice(transitions(zone) or [1_700_000_000 * US])
+        d = c["T"] - c["now"]
+        c["now"] = tr + (r.randrange(-61 * US, 61 * US) if r.random() < .5 else r.randrange(-7200 * US, 7200 * US))
+        c["T"] = c["now"] + d
+        c["host"] = zone
+        c["hostkind"] = "iana-at-own-transition"
+        return c
+    if k < .65:
+        c["host"] = r.choice(HOSTS_POSIX)[0]
+        c["hostkind"] = "posix"
+    else:
+        c["host"] = (":" if r.random() < .1 else "") + r.choice(HOSTS_IANA)   # ":name" = glibc's explicit file form
+        c["hostkind"] = "iana"
+    if r.random() < .35:
+        off = r.choice(host_offsets(c["host"], c["now"])) * r.choice([1, 1, -1])
+        hor = (c["now"] + MIN) // MIN * MIN + US
+        c["T"] = r.choice([c["now"], hor, hor, c["now"] // MIN * MIN + MIN]) + off + r.choice(
+            [0, 1, -1, US, -US, r.randrange(-3, 4), r.randrange(-62 * US, 62 * US)])
+        c["hostkind"] += ":T-at-local-reading"
+    if r.random() < .1:   # T written in the host's own local zone (datetime.astimezone() without argument)
+        c["spell"] = {"kind": "hostlocal"}
+    return c
+
+
 def gen_case(r):
-    if r.random() < .15:
-        return gen_dst_case(r)
+    c = gen_dst_case(r) if r.random() < .15 else gen_plain(r)
+    if r.random() < .42:
+        c = gen_host(r, c)
+    return c
+
+
+def gen_plain(r):
     base = r.choice([1_420_070_400, 1_700_000_000, 1_790_000_000, 2_040_000_000])
     now = (base + r.randrange(0, 86400 * 400)) * US + r.choice([0, 0, 1, 999_999, r.randrange(US)])
     k = r.random()
@@ -130,6 +195,13 @@ def explore(ctx, rep, cases, label):
     for c, o in zip(cases, obs):
         rep.case(c, nontrivial(c))
         rep.count("spell:" + c["spell"]["kind"])
+        rep.count("host-zone:" + (c.get("hostkind") or "UTC (harness default)"))
+        if c.get("host"):
+            rep.count("host-zone-string:" + c["host"])
+            if "host_off_us" in o:
+                ho = o["host_off_us"]
+                rep.count("host-offset:" + ("zero" if ho == 0 else ("east" if ho > 0 else "west") +
+                                            (" whole hours" if ho % (3600 * US) == 0 else " with minutes")))
         if "_crash" in o:
             rep.fail("get_task_delay raised", c, observed=o["_crash"])
             continue
@@ -176,10 +248,11 @@ def run(ctx):
     src_obs, src_info = srctie.obligations(ctx, "sched_run", "C14")
     rep.add_obligations(src_obs)
     rep.extra["source_tie"] = src_info
-    for name, c in C.load_corpus("C14"):
-        explore(ctx, rep, [c], "corpus")
+    corpus = [c for _, c in C.load_corpus("C14")]
+    if corpus:
+        explore(ctx, rep, corpus, "corpus")
     r = ctx.sub_rng("gen")
-    cases = [gen_case(r) for _ in range(ctx.n(3000, 200000))]
+    cases = [gen_case(r) for _ in range(ctx.n(3400, 200000))]
     broken = explore(ctx, rep, cases, "main")
     if not ctx.quick:
         float_exhaustive(ctx, rep)
@@ -195,6 +268,9 @@ def replay(ctx, path):
     obs = C.run_driver(ctx, "sched_delay", [c], nproc=1)[0]
     print("case:", json.dumps(c))
     print("implementation:", obs)
+    print("host time zone of the scheduler process (TZ): %s%s" % (c.get("host") or "UTC (harness default)", "" if not c.get(
+        "host") else "; its naive local wall clock now() reads %s, UTC offset %s us - the statement does not depend on it" % (
+        obs.get("local_now"), obs.get("host_off_us"))))
     nb = c["now"] // MIN * MIN + MIN
     print("statement: T<=now -> 0; T > %d -> None; else T <= now + d*1e6 < T + 1e6" % (nb + US))
     ok = "_crash" not in obs and oracle(c["now"], c["T"], obs["delay"])
